@@ -6,6 +6,7 @@ func init() {
 	verifRegister("VerifC06Wait", VerifC06Wait)
 	verifRegister("VerifC06SharedCtx", VerifC06SharedCtx)
 	verifRegister("VerifC06QueryCtx", VerifC06QueryCtx)
+	verifRegister("VerifC06Schema", VerifC06Schema)
 }
 
 func verifClosed(ch <-chan struct{}) bool {
@@ -388,5 +389,78 @@ func VerifC06QueryCtx() {
 		c3 := verifClosed(ch3)
 		vAssert("query3-no-lost-wakeup", !held3 || c3)
 		vAssert("query3-no-spurious-wakeup", !c3 || held3)
+	}
+}
+
+// VerifC06Schema: waiting after schema growth (SetSchema adds a state): WhenTime, WhenQuery, When,
+// WhenNot and NewStateCtx subscribed after the change still follow the machine's clock.
+func VerifC06Schema() {
+	s := verifNewScn(2, false, false, false, false, true, false)
+	s.inject(false)
+	m := s.m
+	sc := m.Schema()
+	sc["C"] = State{}
+	names := append(m.StateNames(), "C")
+	err := m.SetSchema(sc, names)
+	vAssume(err == nil)
+	st := s.names[vInt(0, 1)]
+	kind := vParam("kind", -1)
+	if kind < 0 {
+		kind = vInt(0, 4)
+	}
+	tick0 := m.Tick(st)
+	act0 := m.Is1(st)
+	var ch <-chan struct{}
+	var sctx context.Context
+	switch kind {
+	case 0:
+		ch = m.WhenTime1(st, tick0+1, nil)
+	case 1:
+		ch = m.WhenQuery(func(c Clock) bool { return c[st] > tick0 }, nil)
+	case 2:
+		sctx = m.NewStateCtx(st)
+	case 3:
+		ch = m.When1(st, nil)
+	case 4:
+		ch = m.WhenNot1(st, nil)
+	}
+	sub := len(s.tr.log)
+	step := func() {
+		x := names[vInt(0, len(names)-1)]
+		vAssume(x != StateException)
+		if vBool() {
+			m.Add1(x, nil)
+		} else {
+			m.Remove1(x, nil)
+		}
+	}
+	step()
+	step()
+	vReach("schema")
+	i := verifIdx(m.stateNames, st)
+	moved, wasActive, wasInactive := false, act0, !act0
+	for j := sub; j < len(s.tr.log); j++ {
+		e := s.tr.log[j]
+		if e.kind != "end" || !e.acc || e.mut.IsCheck {
+			continue
+		}
+		if e.after[i] > tick0 {
+			moved = true
+		}
+		if e.after[i]%2 == 1 {
+			wasActive = true
+		} else {
+			wasInactive = true
+		}
+	}
+	switch kind {
+	case 0, 1:
+		vAssert("tick-wait-closes-iff-tick-moved", verifClosed(ch) == moved)
+	case 2:
+		vAssert("statectx-cancelled-iff-tick-changed", (sctx.Err() != nil) == (m.Tick(st) != tick0))
+	case 3:
+		vAssert("when-closes-iff-was-active", verifClosed(ch) == wasActive)
+	case 4:
+		vAssert("whennot-closes-iff-was-inactive", verifClosed(ch) == wasInactive)
 	}
 }
